@@ -30,6 +30,8 @@ def stack_tops(case, upto):
             continue
         if st[0] in ("table", "dup"):
             stack = stack + [h["top"]]
+        elif st[0] == "swap":
+            stack = stack[:-2] + [stack[-1], stack[-2]]
         elif st[0] in ("join", "joinc", "concat"):
             stack = stack[:-2] + [h["top"]]
         else:
